@@ -272,7 +272,13 @@ func (g *cgGraph) chain() {
 // grow the pool by one derived expression; returns false when nothing applied
 func (g *cgGraph) derive() bool {
 	e := g.pool[g.r.Intn(len(g.pool))]
-	switch g.r.Intn(10) {
+	switch g.r.Intn(12) {
+	case 10, 11: // record literal of a generic record with two type parameters
+		o := g.pool[g.r.Intn(len(g.pool))]
+		if o == e && e.once {
+			return false
+		}
+		g.add(&cgExpr{fo: "{PA=" + e.fo + "; PB=" + o.fo + "}", ty: cgCon("Pr", e.ty, o.ty), ground: cgCon("Pr", e.ground, o.ground), eqs: cgJoin(e.eqs, o.eqs)}, e, o)
 	case 7: // destructuring let of something that is (ground) a pair
 		if e.ground.v != "" || e.ground.head != "*" {
 			return false
@@ -417,6 +423,13 @@ func c02GoTy(e ast.Expr) string {
 	case *ast.ArrayType:
 		return vsx("c", "[]", c02GoTy(x.Elt))
 	case *ast.IndexListExpr:
+		if id, ok := x.X.(*ast.Ident); ok {
+			parts := []string{"c", id.Name}
+			for _, a := range x.Indices {
+				parts = append(parts, c02GoTy(a))
+			}
+			return vsx(parts...)
+		}
 		if se, ok := x.X.(*ast.SelectorExpr); ok && strings.HasPrefix(se.Sel.Name, "Tuple") {
 			parts := []string{"c", "*"}
 			for _, a := range x.Indices {
@@ -497,7 +510,7 @@ func vC02Graph(seed int64, count int, extra []string) {
 		r := rand.New(rand.NewSource(seed*7919 + int64(i)))
 		name := fmt.Sprintf("g%d", i)
 		body, oin, np := c02GraphGen(r, name)
-		src := "package main\n\nimport frt\nimport slice\n\n" + body
+		src := "package main\n\nimport frt\nimport slice\n\ntype Pr<A, B> = {PA: A; PB: B}\n\n" + body
 		goSrc, err := vTranspilePkg(src)
 		vstat("graphs")
 		vstat("params." + strconv.Itoa(np))
